@@ -34,6 +34,7 @@ fn main() {
             std::fs::copy(&lp, dir.join(format!("g{i}.l"))).unwrap();
         }
         let (in_src_l, in_src_y) = (in_src.clone(), in_src.clone());
+        let stale_names: Vec<String> = p["ident_tokens"].as_array().map(|a| a.iter().filter_map(|t| t.as_str().map(|x| x.to_string())).collect()).unwrap_or_default();
         let ymod = format!("g{i}_y");
         let lmod = format!("g{i}_l");
         let yk = match kind.as_str() {
@@ -119,6 +120,14 @@ fn main() {
                 };
                 #[allow(deprecated)]
                 return lb.rule_ids_map(map).process_file(&lp, &lout).map(|_| ()).map_err(|e| e.to_string());
+            }
+            if s2["stale_rule_ids_map"].as_bool() == Some(true) {
+                // a map set by hand before lrpar_config (say, left over from the two-step idiom
+                // and an earlier grammar): right names, rotated ids; the parser's own map must win
+                let n = stale_names.len();
+                lb = lb.rule_ids_map(
+                    stale_names.iter().enumerate().map(|(k, t)| (t.clone(), ((k + 1) % n) as $t)).collect::<std::collections::HashMap<String, $t>>(),
+                );
             }
             lb = lb.lrpar_config(move |mut ctp| cfg_parser!(ctp, yp2, yout2, s3));
             lb.build().map(|_| ()).map_err(|e| e.to_string())
